@@ -8,6 +8,7 @@ import EaselModel.Msafile.StockholmLemmas
 import EaselModel.Msafile.StoGrowth
 import EaselModel.Msafile.StoNum
 import EaselModel.Msafile.OpenByName
+import EaselModel.Msafile.GzSuffix
 import EaselModel.Msafile.AbcTables
 import EaselModel.Msafile.GuessLemmas
 /-! # C01 — alignment input is total: property theorems (statements + glue; lemmas live in `Msafile/*Lemmas.lean`)
@@ -925,5 +926,25 @@ example : openByName 0 (.decl .afa) .guess .directory matches .enotfound _ := by
 example : openByName 0 .auto .text (.file (str "d/x.sto") (str "# STOCKHOLM 1.0\na AC\n//\n")) = .opened (.ok ⟨.stockholm, none, 0⟩) := by
   decide +kernel
 example : openByName 0 .auto .text (.file (str "x.dat") (str "\n")) = .opened .enoformat := by decide +kernel
+
+/-! ## the `.gz` branch of the suffix rule (`Msafile/GzSuffix.lean`)
+
+A name ending in `.gz` is classified by the suffix before `.gz`, one level only; the name reaches `msafile_OpenBuffer` through
+that hint alone, so `x.sfx.gz` opens exactly as `x.sfx` for EVERY content, format selection, alphabet selection and name width. -/
+theorem open_gz_name (nw0 : Nat) (fsel : FmtSel) (asel : AbcSel) (f : Bytes) (src : Bytes) (h : fileExtension f 0 ≠ some bGz) :
+    openModelW nw0 fsel asel (some (f ++ bGz)) (splitLines src) = openModelW nw0 fsel asel (some f) (splitLines src) :=
+  openModelW_gz nw0 fsel asel f (splitLines src) h
+
+theorem suffix_gz_one_level (f : Bytes) :
+    fmtBySuffix (some (f ++ bGz)) = suffixFmt (fileExtension f 0) ∧ fmtBySuffix (some (f ++ bGz ++ bGz)) = none :=
+  ⟨fmtBySuffix_gz f, fmtBySuffix_gz_gz f⟩
+
+/-- non-vacuity: Stockholm text in `x.pfam.gz` opens as Pfam, in `x.pfam.gz.gz` and in `x.gz` as Stockholm; the hypothesis
+    of `open_gz_name` holds for `x.pfam` and fails for `x.gz` -/
+example : openModelW 0 .auto .text (some (str "x.pfam.gz")) (splitLines (str "# STOCKHOLM 1.0\na AC\n//\n")) = .ok ⟨.pfam, none, 0⟩ := by
+  decide +kernel
+example : openModelW 0 .auto .text (some (str "x.pfam.gz.gz")) (splitLines (str "# STOCKHOLM 1.0\na AC\n//\n")) = .ok ⟨.stockholm, none, 0⟩ := by
+  decide +kernel
+example : fileExtension (str "x.pfam") 0 ≠ some bGz ∧ fileExtension (str "x.gz") 0 = some bGz := by decide +kernel
 
 end EaselModel.Props.C01
